@@ -27,8 +27,8 @@ sort_nodes_impl through the contract proved under C05 (DEPENDS), whose ghost sym
 `returned-tree/...` postconditions speak about the RETURNED tree: a one-to-one map sg between its rows and the input rows (C05's index
 array when sort is on, the identity otherwise), positions / radius / types through sg, the single root = input row 0, parent ids = the
 greedy attachments read through sg, the branching cap on the returned parent column, ids 0..n-1 and parents first when sorted.
-FINDING (open): with column names other than the default ones and sort=True, _sort_tree stores the new numbering under "id" / "pid" instead
-of the given names; the three clauses marked FINDING below are not provable for that variant (see the comments there).
+Defect found here and FIXED in /repo (known_findings.jsonl): with column names other than the default ones and sort=True, _sort_tree stores the new numbering under "id" / "pid" instead
+of the given names; the three clauses marked below were not provable for that variant before the fix.
 MST optimality (Prim => minimum total length) is NOT proved here (bounded stand-in only).
 """
 import z3
@@ -425,7 +425,7 @@ def ret_post(which):
         k, l, p = _q("k", "l", "p")
         rng = lambda x: z3.And(0 <= x, x < n)
         if which == "a-Tree-with-exactly-the-seven-named-columns-of-n-rows-sharing-nothing-with-the-inputs":
-            # FINDING (names other than the default ones, sort on): _sort_tree ADDS columns "id" / "pid" (`ndata.update(id=..., pid=...)`)
+            # before the fix in /repo (names other than the default ones, sort on): _sort_tree ADDS columns "id" / "pid" (`ndata.update(id=..., pid=...)`)
             # instead of overwriting the columns that carry the ids under the given names
             if not tree_shaped(r.t, r.nm):
                 return False
@@ -446,10 +446,10 @@ def ret_post(which):
             # the parent id stored in row k is the id of the row that shows the input point to which the loop attached k's point
             return z3.ForAll([k], z3.Implies(z3.And(rng(k), r.sg(k) != 0), r.col("pid", k) == r.col("id", r.iv(s.Pid(r.sg(k))))))
         if which == "ids-are-the-row-numbers":
-            # FINDING (names other than the default ones, sort on): the id column under the given name is only permuted, not renumbered
+            # before the fix in /repo (names other than the default ones, sort on): the id column under the given name is only permuted, not renumbered
             return z3.ForAll([k], z3.Implies(rng(k), r.col("id", k) == k))
         if which == "sorted-result-has-root-0-and-parents-before-children":
-            # FINDING (names other than the default ones, sort on): same cause, the parent column under the given name is not renumbered
+            # before the fix in /repo (names other than the default ones, sort on): same cause, the parent column under the given name is not renumbered
             if not r.sorted:
                 return True
             return z3.And(r.col("pid", z3.IntVal(0)) == -1, z3.ForAll([k], z3.Implies(z3.And(0 < k, k < n), z3.And(0 <= r.col("pid", k), r.col("pid", k) < k))))
@@ -467,7 +467,7 @@ def ret_post(which):
     return f
 
 
-# the three clauses that the FINDING touches come last (a failed clause is assumed afterwards, it would mask the later ones)
+# the three clauses that the (fixed) defect touched come last (a failed clause is assumed afterwards, it would mask the later ones)
 RET_POSTS = ["rows-correspond-one-to-one-to-the-input-points-plus-soma", "every-row-carries-the-position-of-its-input-point-radius-1-type-soma-or-glia",
              "single-root-is-the-soma-or-first-point", "parent-relation-is-the-greedy-attachments", "no-non-exempt-node-has-more-than-K-children",
              "a-Tree-with-exactly-the-seven-named-columns-of-n-rows-sharing-nothing-with-the-inputs", "ids-are-the-row-numbers",
